@@ -687,13 +687,14 @@ func runC19(r *Run) {
 	}
 	c19Transact(r)
 	c19Raw(r)
+	c19RawMonitor(r)
 }
 
 // c19Raw: raw JSON-RPC over the server's socket: a transact request whose parameters are structurally
 // corrupted, followed by an echo on the same connection. The server must answer the echo: a panic in the
 // connection's goroutine would take the whole process down (the case in flight is recorded for that event).
 func c19Raw(r *Run) {
-	n := 60
+	n := 200
 	if r.Tier == "thorough" {
 		n = 1500
 	}
@@ -763,6 +764,135 @@ func c19Raw(r *Run) {
 			return
 		}
 	}
+}
+
+// c19RawMonitor: the same for the three monitor methods: a valid monitor request (columns, select, where)
+// is structurally corrupted, sent raw, followed by a valid insert (so that the registered monitor, if any,
+// has an update to filter) and an echo, which must be answered.
+func c19RawMonitor(r *Run) {
+	n := 150
+	if r.Tier == "thorough" {
+		n = 900
+	}
+	ts := genTxnSchema(r.Rng, true)
+	rig, err := newRig(ts)
+	if err != nil {
+		return
+	}
+	defer rig.Close()
+	sh := newShadow()
+	for k := 0; k < 3; k++ {
+		txn := genTxn(r.Rng, ts, sh, 3)
+		clampWaits(&txn)
+		rig.im.transact(txn.Ops, nil)
+		sh.load(rig.im.dump())
+	}
+	for i := 0; i < n; i++ {
+		method := []string{"monitor", "monitor_cond", "monitor_cond_since"}[i%3]
+		reqs := map[string]interface{}{}
+		for _, t := range ts.Spec.Tables {
+			if r.Rng.Intn(3) == 0 {
+				continue
+			}
+			mr := map[string]interface{}{}
+			if r.Rng.Intn(2) == 0 {
+				var cols []interface{}
+				for _, c := range t.Cols {
+					if r.Rng.Intn(2) == 0 {
+						cols = append(cols, c.Name)
+					}
+				}
+				mr["columns"] = cols
+			}
+			if r.Rng.Intn(2) == 0 {
+				mr["select"] = map[string]interface{}{"initial": r.Rng.Intn(2) == 0, "insert": r.Rng.Intn(2) == 0, "delete": r.Rng.Intn(2) == 0, "modify": r.Rng.Intn(2) == 0}
+			}
+			if method != "monitor" && r.Rng.Intn(2) == 0 {
+				mr["where"] = []interface{}{[]interface{}{"name", "==", "a"}}
+			}
+			reqs[t.Name] = mr
+		}
+		var creqs interface{} = reqs
+		switch r.Rng.Intn(4) {
+		case 0: // a table's request is null / of another type
+			for t := range reqs {
+				reqs[t] = corrupt(r.Rng, nil)
+				if r.Rng.Intn(2) == 0 {
+					reqs[t] = nil
+				}
+				break
+			}
+		case 1:
+			creqs = corrupt(r.Rng, creqs)
+		default:
+			for t := range reqs {
+				reqs[t] = corrupt(r.Rng, reqs[t])
+				if r.Rng.Intn(2) == 0 {
+					break
+				}
+			}
+		}
+		list := []interface{}{"db", fmt.Sprintf("m%d", i), creqs}
+		if method == "monitor_cond_since" {
+			list = append(list, "00000000-0000-0000-0000-000000000000")
+		}
+		if r.Rng.Intn(5) == 0 {
+			k := r.Rng.Intn(len(list))
+			list[k] = corrupt(r.Rng, list[k])
+		}
+		if r.Rng.Intn(8) == 0 {
+			list = list[:r.Rng.Intn(len(list)+1)]
+		}
+		if i%5 == 4 {
+			// the remaining methods of the server, with arbitrary parameter lists
+			method = []string{"list_dbs", "get_schema", "cancel", "monitor_cancel", "lock", "steal", "unlock", "echo", "no_such_method"}[r.Rng.Intn(9)]
+			list = []interface{}{}
+			for k := r.Rng.Intn(4); k > 0; k-- {
+				list = append(list, []interface{}{"db", nil, 1, 1.5, true, "nosuchdb", []interface{}{}, map[string]interface{}{"a": 1}, fmt.Sprintf("m%d", i-1)}[r.Rng.Intn(9)])
+			}
+		}
+		req, _ := json.Marshal(map[string]interface{}{"method": method, "params": list, "id": 1})
+		ins := genInsertOnly(r, ts, sh)
+		cs := map[string]interface{}{"model": ts.modelJSON(), "request": string(req), "then": string(ins)}
+		r.Case("raw-monitor", string(req))
+		r.Count("raw:" + method)
+		r.InFlight("raw-monitor", cs, "the server crashed on a raw "+method+" request")
+		conn, err := net.DialTimeout("unix", rig.sock, 2*time.Second)
+		if err != nil {
+			r.Landed()
+			r.Violation("raw-monitor", cs, err.Error(), "connection", true, "the server no longer accepts connections", "")
+			return
+		}
+		_ = conn.SetDeadline(time.Now().Add(5 * time.Second))
+		_, _ = conn.Write(req)
+		_, _ = conn.Write(ins)
+		_, _ = conn.Write([]byte(`{"method":"echo","params":["still-there"],"id":3}`))
+		dec := json.NewDecoder(conn)
+		gotEcho := false
+		for k := 0; k < 8 && !gotEcho; k++ {
+			var resp map[string]interface{}
+			if err := dec.Decode(&resp); err != nil {
+				break
+			}
+			if id, ok := resp["id"].(float64); ok && id == 3 && resp["error"] == nil {
+				gotEcho = true
+			}
+		}
+		conn.Close()
+		r.Landed()
+		if !gotEcho {
+			r.Violation("raw-monitor", cs, "no echo reply within 5s", "echo reply", true, "after an ill-formed "+method+" request and a transaction the server does not answer an echo on the same connection", "")
+			return
+		}
+	}
+}
+
+// genInsertOnly: a raw transact request inserting one fresh row into the first table
+func genInsertOnly(r *Run, ts TxnSchema, sh *shadow) []byte {
+	t := ts.Spec.Tables[0]
+	op := map[string]interface{}{"op": "insert", "table": t.Name, "row": map[string]interface{}{"name": fmt.Sprintf("raw%d", r.Rng.Intn(1<<30))}}
+	b, _ := json.Marshal(map[string]interface{}{"method": "transact", "params": []interface{}{"db", op}, "id": 2})
+	return b
 }
 
 func forceZeroTimeout(x interface{}) {
